@@ -21,9 +21,10 @@ import (
 )
 
 type Op struct {
-	K string `json:"k"` // A arrange, F free, B block, W write, R reopen, V available, C count, S segments
+	K string `json:"k"` // A arrange, F free, B block, W fill a block, P write one byte, R reopen, V available, C count, S segments
 	I int64  `json:"i,omitempty"`
 	V int    `json:"v,omitempty"`
+	P int64  `json:"p,omitempty"` // P: position inside the block
 }
 
 type Case struct {
@@ -113,6 +114,8 @@ func coqOp(o Op) string {
 		return "OBlock " + z(o.I)
 	case "W":
 		return fmt.Sprintf("OWrite %s %d%%N", z(o.I), o.V)
+	case "P":
+		return fmt.Sprintf("OPoke %s %s %d%%N", z(o.I), z(o.P), o.V)
 	case "R":
 		return "OReopen"
 	case "V":
@@ -248,17 +251,14 @@ func runSeq(c Case, s *hx.Sink, outDir string) string {
 		for _, i := range idxs {
 			blk, err := b.Block(int(i))
 			if err != nil || len(blk) == 0 {
-				finals = append(finals, fmt.Sprintf("mkRead %s 0%%N 0%%N false", z(i)))
+				finals = append(finals, fmt.Sprintf("mkRead %s 999%%N 999%%N 0%%N", z(i)))
 				continue
 			}
-			uni := true
+			sum := uint64(0)
 			for _, x := range blk {
-				if x != blk[0] {
-					uni = false
-					break
-				}
+				sum += uint64(x)
 			}
-			finals = append(finals, fmt.Sprintf("mkRead %s %d%%N %d%%N %s", z(i), blk[0], blk[len(blk)-1], hx.Bool(uni)))
+			finals = append(finals, fmt.Sprintf("mkRead %s %d%%N %d%%N %d%%N", z(i), blk[0], blk[len(blk)-1], sum))
 		}
 	}
 	for n, o := range c.Ops {
@@ -298,6 +298,15 @@ func runSeq(c Case, s *hx.Sink, outDir string) string {
 					for k := range blk {
 						blk[k] = byte(o.V)
 					}
+					written[o.I] = o.V
+					out = "OutOk"
+				}
+			case "P":
+				blk, err := b.Block(int(o.I))
+				if err != nil {
+					out = "OutErr " + errName(err)
+				} else {
+					blk[o.P] = byte(o.V) // panics when the position is outside the block
 					written[o.I] = o.V
 					out = "OutOk"
 				}
